@@ -1244,6 +1244,14 @@ func (x *Exec) hseqTheory(env *CEnv, want string) string {
 						targ = tp
 					}
 				}
+				if targ == nil {
+					// the container type parameter is called S in some constructors (BiMapS/B/I/F)
+					if env.ttypes != nil && env.ttypes["S"] != nil {
+						targ = env.ttypes["S"]
+					} else if tp, ok := x.typeParamObjs["S"]; ok {
+						targ = tp
+					}
+				}
 				if targ != nil {
 					if inst, err := types.Instantiate(nil, tn.Type(), []types.Type{targ}, false); err == nil {
 						ht = x.sortOf(inst)
